@@ -14,7 +14,7 @@
 EXTENDS LoadAware, TLC
 
 CONSTANTS Nodes, PodNames, ReqVals, UsageVals, Times, RIs, MaxClock,
-          MCEstScheds, MCEstInits, NodeChange
+          MCEstScheds, MCEstInits, MCSys, NodeChange
 
 VARIABLES cache,   \* node -> cached sums (implementation)
           api,     \* pod name -> the pod object last delivered by the informer, or NoPod
@@ -24,6 +24,7 @@ mcvars == <<vars, cache, api, resv>>
 OptSec1 == {None, 1}     \* cfg files cannot write -1
 OptSec2 == {None, 2}
 OnlyNone == {None}
+OnlyOne == {1}
 
 NoPod == [exists |-> FALSE]
 V(x)  == [d \in Dims |-> x]
@@ -44,7 +45,7 @@ MetricShapes ==
         ut \in Times, ri \in RIs, pr \in PodReports}
 
 MCInit ==
-    /\ \E es \in MCEstScheds, ei \in MCEstInits, sys \in BOOLEAN :
+    /\ \E es \in MCEstScheds, ei \in MCEstInits, sys \in MCSys :
        cfg = [factors |-> V(100), estSched |-> es, estInit |-> ei, custom |-> FALSE,
               includeSys |-> sys, usageThr |-> Zero, prodThr |-> Zero, aggOn |-> FALSE, aggThr |-> Zero,
               aggType |-> "", aggDur |-> 0, filterExpired |-> None, expSec |-> None, enableExpired |-> None, nowOff |-> 0]
